@@ -55,20 +55,33 @@ func selectByFile(pkgs []*packages.Package, file string) *packages.Package {
 	return nil
 }
 
+// commonPrefix returns the deepest directory containing all the
+// (absolute, cleaned) directories [paths]. The comparison is done path element
+// by path element, so that /src/foo1 and /src/foo2 yield /src (and not /src/foo).
 func commonPrefix(paths []string) string {
-	index := 0
-	first := paths[0]
-	for ; index < len(first); index++ {
-		c := first[index]
-		for _, other := range paths {
-			if index >= len(other) || other[index] != c {
-				// no more prefix
-				return first[:index]
+	const sep = string(filepath.Separator)
+	if len(paths) == 0 {
+		return ""
+	}
+	common := strings.Split(paths[0], sep)
+	for _, other := range paths[1:] {
+		elems := strings.Split(other, sep)
+		if len(elems) < len(common) {
+			common = common[:len(elems)]
+		}
+		for i := range common {
+			if common[i] != elems[i] {
+				common = common[:i]
+				break
 			}
 		}
 	}
-
-	return first
+	out := strings.Join(common, sep)
+	if out == "" && strings.HasPrefix(paths[0], sep) {
+		// only the root is shared
+		return sep
+	}
+	return out
 }
 
 // LoadSources returns for each source file, the `*packages.Package` containing it.
